@@ -40,4 +40,12 @@ def beBytes (n x : Nat) : List Byte := (List.range n).map fun i => BitVec.ofNat 
 /-- the `n`-byte little-endian representation of `x` (mod 2^(8n)) -/
 def leBytes (n x : Nat) : List Byte := (List.range n).map fun i => BitVec.ofNat 8 (x >>> (8 * i))
 
+/-- a byte string (a multiple of w/8 bytes) as big-endian w-bit words -/
+def wordsBE (w : Nat) (bytes : List Byte) : List (BitVec w) :=
+  (groups (w / 8) bytes).map fun g => BitVec.ofNat w (beVal g)
+
+/-- a byte string (a multiple of w/8 bytes) as little-endian w-bit words -/
+def wordsLE (w : Nat) (bytes : List Byte) : List (BitVec w) :=
+  (groups (w / 8) bytes).map fun g => BitVec.ofNat w (leVal g)
+
 end Spec
